@@ -30,17 +30,22 @@ CTL = {"Exact": StepControlType.Exact, "Fixed": StepControlType.Fixed, "ResRatio
        "DistRatio": StepControlType.DistanceRatio}
 
 
+NEEDED = {"pc", "cfg", "hist", "orc", "inner", "disp", "post", "trial", "pen", "filt", "rho", "prho", "err", "result"}
+
+
 def simulate(cfg, num, depth, seed, module="MCGradFlow.tla"):
     d = tempfile.mkdtemp(prefix="gf_sim_")
     try:
-        cmd = ["tlc", "-simulate", "file=%s/tr,num=%d" % (d, num), "-depth", str(depth), "-workers", "1", "-seed", str(seed),
+        workers = 8
+        cmd = ["tlc", "-simulate", "file=%s/tr,num=%d" % (d, max(1, num // workers)), "-depth", str(depth), "-workers", str(workers),
+               "-seed", str(seed),
                "-metadir", os.path.join(d, "meta"), "-noGenerateSpecTE", "-config", cfg, module]
         p = subprocess.run(cmd, cwd=SPEC_DIR, stdout=subprocess.PIPE, stderr=subprocess.STDOUT, text=True, timeout=1200)
         files = sorted(glob.glob(os.path.join(d, "tr_*")))
         out = []
         for f in files:
             try:
-                out.append(tlaparse.parse_dump(f))
+                out.append(tlaparse.parse_dump(f, only=NEEDED))
             except Exception:
                 pass
         return out, p.stdout
